@@ -49,7 +49,7 @@ def run(ctx):
     if gate:
         ctx.broken.append('forbidden constructs in coq/: ' + '; '.join(gate[:5]))
     n = 400 if not ctx.thorough() else 20000
-    rc, out = vf.sh([os.path.join(vf.BIN, 'c11'), '-seed', str(ctx.seed), '-n', str(n), '-out', ctx.out, '-tier', ctx.tier], timeout=3000)
+    rc, out = vf.sh([os.path.join(vf.BIN, 'c11'), '-seed', str(ctx.seed), '-n', str(n), '-out', ctx.out, '-tier', ctx.tier, '-repo', vf.REPO], timeout=3000)
     if rc != 0:
         ctx.broken.append('harness c11 failed: ' + out[-400:])
         vf.finish(ctx, 'proof', [])
@@ -63,6 +63,15 @@ def run(ctx):
     bad, err = vf.coq_cases(ctx, 'C11', ['Expr.Untrusted', 'Expr.UntrustedObs'], 'expr', 'run_c11', terms, shard=600, ordered=True)
     if err:
         ctx.broken.append('correspondence cases did not evaluate: ' + err[-400:])
+    tterms = vf.read_lines(os.path.join(ctx.out, 'cases_tree.txt'))
+    tsrcs = vf.read_lines(os.path.join(ctx.out, 'sources_tree.jsonl'))
+    tbad, terr = vf.coq_cases(ctx, 'C11T', ['Expr.Untrusted', 'Expr.UntrustedObs'], '(list utree * expr)', 'run_c11_tree', tterms, shard=600, ordered=True)
+    if terr:
+        ctx.broken.append('correspondence cases (custom trees) did not evaluate: ' + terr[-400:])
+    if tbad:
+        ctx.broken.append('correspondence C11 on generated trees (model vs Check with BuiltinUntrustedInputs swapped): %d of %d cases disagree' % (len(tbad), len(tterms)))
+        if not bad:
+            ctx.first_disagreement = {'case_index': tbad[0], 'input': json.loads(tsrcs[tbad[0]]), 'model_term': tterms[tbad[0]][:4000]}
     fails = list(s['oracle_failures'])
     if bad:
         ctx.broken.append('correspondence C11 (model automaton+traversal vs ExprSemanticsChecker.Check): %d of %d cases disagree' % (len(bad), len(terms)))
@@ -72,7 +81,7 @@ def run(ctx):
         'obligations': nthm, 'discharged': ndis,
         'evaluations': s['evaluations'], 'distinct_nontrivial': s['distinct_nontrivial'],
         'rule': s['rule'], 'samples': s['samples'], 'distribution': s['distribution'],
-        'traces_validated_against_impl': len(terms), 'disagreements': len(bad),
+        'traces_validated_against_impl': len(terms) + len(tterms), 'disagreements': len(bad) + len(tbad),
         'exhaustive': ctx.thorough(),
         'exhaustive_what': 'thorough: every spelling of every documented path of length <= 5, all one-hole x one-hole embeddings of the representative atoms' if ctx.thorough() else 'quick: seeded sample of the depth-2 embeddings',
         'extra': s.get('extra', {}),
@@ -81,8 +90,24 @@ def run(ctx):
 
 
 def replay(path):
+    """implementation vs reference (Go), then the model (repaired and original
+    automaton) evaluated inside Coq on the same ExprNode tree"""
     ctx = vf.Ctx('C11', 'quick', 1)
     ok, log = vf.build_harness(ctx, ['c11'])
     if not ok:
         print(log); return 2
-    return subprocess.call([os.path.join(vf.BIN, 'c11'), '-replay', path])
+    rc, out = vf.sh([os.path.join(vf.BIN, 'c11'), '-replay', path, '-repo', vf.REPO], timeout=300)
+    print(out, end='')
+    term = [l.split(':', 1)[1].strip() for l in out.split('\n') if l.startswith('model input:')]
+    if term:
+        ok, log = vf.coq_make(['Expr/UntrustedObs.vo'])
+        f = os.path.join(ctx.out, 'replay_model.v')
+        open(f, 'w').write('From AL Require Import Base.Corr Expr.Untrusted Expr.UntrustedObs.\n'
+                           'From Coq Require Import String List NArith.\nImport ListNotations.\nOpen Scope string_scope.\n'
+                           'Definition e : expr := %s.\n'
+                           'Definition model_repaired := Eval vm_compute in run_c11 e.\nPrint model_repaired.\n'
+                           'Definition model_original := Eval vm_compute in run_c11_old e.\nPrint model_original.\n' % term[0])
+        rc2, out2 = vf.sh(['coqc', '-R', vf.COQ, 'AL', f], cwd=ctx.out, timeout=300)
+        print('model (tuples [line; col; kind; leaf indices]):')
+        print(out2.strip())
+    return rc
